@@ -145,7 +145,7 @@ func RunCases(o *Options, cases []*VCase) error {
 				errs[ji] = err
 				return
 			}
-			cmd := exec.Command("timeout", "1200", "coqc", "-Q", o.CoqDir, "DT", "-Q", dir, "Cases", file)
+			cmd := coqcCmd("1200", "-Q", o.CoqDir, "DT", "-Q", dir, "Cases", file)
 			out, err := cmd.CombinedOutput()
 			if err != nil {
 				errs[ji] = fmt.Errorf("coqc on %s: %v\n%s", file, err, tail(string(out), 1500))
@@ -233,4 +233,12 @@ func tail(s string, n int) string {
 		return s[len(s)-n:]
 	}
 	return s
+}
+
+// coqcCmd runs coqc under a time limit with the stack limit lifted: vm_compute recurses on the C
+// stack, and a model output of some hundred kilobytes (or its hex form in a verdict) needs more
+// than the default 8 MB.
+func coqcCmd(timeoutSec string, args ...string) *exec.Cmd {
+	script := `ulimit -s unlimited 2>/dev/null || ulimit -s 4000000 2>/dev/null; exec timeout "$0" coqc "$@"`
+	return exec.Command("sh", append([]string{"-c", script, timeoutSec}, args...)...)
 }
